@@ -161,6 +161,27 @@ def gen_gcirc(src):
         raise Unrecognised('gcirc signature')
     default_units = fn.args.defaults[-1].value if fn.args.defaults else None
     body = [s for s in fn.body if not (isinstance(s, ast.Expr) and isinstance(s.value, ast.Constant))]
+    # a leading  ra1, dec1, ra2, dec2 = [np.asanyarray(c, dtype=np.float64) for c in (ra1, dec1, ra2, dec2)]  changes the
+    # storage type only (the identity on the real numbers): recognised and skipped
+    def is_storage_cast(st):
+        if not (isinstance(st, ast.Assign) and len(st.targets) == 1 and isinstance(st.targets[0], ast.Tuple)
+                and [getattr(e, 'id', None) for e in st.targets[0].elts] == GC_ARGS):
+            return False
+        v = st.value
+        if isinstance(v, (ast.ListComp, ast.GeneratorExp)) and len(v.generators) == 1:
+            g = v.generators[0]
+            if isinstance(g.iter, ast.Tuple) and [getattr(e, 'id', None) for e in g.iter.elts] == GC_ARGS \
+                    and isinstance(g.target, ast.Name) and not g.ifs and isinstance(v.elt, ast.Call) \
+                    and call_name(v.elt.func) in ('asanyarray', 'asarray') and len(v.elt.args) == 1 \
+                    and isinstance(v.elt.args[0], ast.Name) and v.elt.args[0].id == g.target.id:
+                kw = {k.arg: k.value for k in v.elt.keywords}
+                if set(kw) <= {'dtype'} and (not kw or (isinstance(kw['dtype'], ast.Attribute) and kw['dtype'].attr in ('float64', 'double'))
+                                             or (isinstance(kw['dtype'], ast.Name) and kw['dtype'].id == 'float')):
+                    return True
+        raise Unrecognised('gcirc: unexpected re-assignment of the arguments')
+    storage_cast = bool(body) and is_storage_cast(body[0])
+    if storage_cast:
+        body = body[1:]
     if not (len(body) >= 3 and isinstance(body[0], ast.If) and isinstance(body[-1], ast.If)):
         raise Unrecognised('gcirc body shape')
     # --- input conversion chain
@@ -226,6 +247,7 @@ def gen_gcirc(src):
            'From Coq Require Import Reals ZArith List.', 'Import ListNotations.', 'Open Scope R_scope.', '',
            'Definition gcirc_valid_units : list Z := %s.' % ('[' + '; '.join('%d%%Z' % k for k, _ in branches) + ']'),
            'Definition gcirc_default_units : Z := %s%%Z.' % (default_units if isinstance(default_units, int) else '(-1)'),
+           'Definition gcirc_casts_input_to_float64 : bool := %s.' % ('true' if storage_cast else 'false'),
            '',
            '(* input conversion: %s; an invalid `units` raises ValueError in the source *)' % tup(inner),
            'Definition gcirc_in (units : Z) (ra1 dec1 ra2 dec2 : R) : R * R * R * R :=\n  %s.' % conv,
@@ -471,6 +493,14 @@ def col(node, var):
     return None
 
 
+def dtype_choice(st):
+    """`if <test>: dtype = ... else: dtype = ...` -- chooses the storage type of the result only"""
+    def only_dtype(stmts):
+        return all(isinstance(x, ast.Assign) and len(x.targets) == 1 and isinstance(x.targets[0], ast.Name)
+                   and x.targets[0].id == 'dtype' for x in stmts)
+    return isinstance(st, ast.If) and bool(st.body) and only_dtype(st.body) and only_dtype(st.orelse)
+
+
 def gen_angles(src):
     tree = ast.parse(src)
     fa = find_function(tree, 'angles_to_x')
@@ -513,6 +543,8 @@ def gen_angles(src):
                     raise Unrecognised('angles_to_x assignment')
                 comps[k] = st.value
         elif isinstance(st, ast.If):
+            if dtype_choice(st):
+                continue
             if not (isinstance(st.test, ast.Name) and st.test.id == 'latitude' and len(st.body) == 1 and len(st.orelse) == 1):
                 raise Unrecognised('angles_to_x if')
             a, b = simple_assigns(st.body), simple_assigns(st.orelse)
@@ -538,6 +570,8 @@ def gen_angles(src):
     lat_fix = None
     for st in fx.body:
         if isinstance(st, ast.If):
+            if dtype_choice(st):
+                continue
             if not (isinstance(st.test, ast.Name) and st.test.id == 'latitude' and len(st.body) == 1 and not st.orelse):
                 raise Unrecognised('x_to_angles if')
             a = simple_assigns(st.body)
